@@ -528,6 +528,10 @@ class Bits:
             offset = 0
 
         if isinstance(s, io.BytesIO):
+            if offset < 0 or offset > s.seek(0, 2) * 8:
+                raise bitstring.CreationError(f"The offset of {offset} bits is not within the {s.seek(0, 2) * 8} bits of the BytesIO object.")
+            if length is not None and length < 0:
+                raise bitstring.CreationError(f"Can't create bitstring of negative length {length}.")
             if length is None:
                 length = s.seek(0, 2) * 8 - offset
             byteoffset, offset = divmod(offset, 8)
@@ -552,6 +556,8 @@ class Bits:
         with open(pathlib.Path(filename), 'rb') as source:
             if offset is None:
                 offset = 0
+            if offset < 0:
+                raise bitstring.CreationError(f"The offset of {offset} bits cannot be negative.")
             m = mmap.mmap(source.fileno(), 0, access=mmap.ACCESS_READ)
             if offset == 0:
                 self._filename = source.name
@@ -564,18 +570,22 @@ class Bits:
                         raise bitstring.CreationError(f"The offset of {offset} bits is greater than the file length ({len(temp)} bits).")
                     self._bitstore = temp.getslice(offset, None)
                 else:
+                    if length < 0:
+                        raise bitstring.CreationError("Can't create bitstring with a negative length.")
                     self._bitstore = temp.getslice(offset, offset + length)
-                    if len(self) != length:
+                    if len(self) != length or offset > len(temp):
                         raise bitstring.CreationError(f"Can't use a length of {length} bits and an offset of {offset} bits as file length is only {len(temp)} bits.")
 
     def _setbitarray(self, ba: bitarray.bitarray, length: Optional[int], offset: Optional[int]) -> None:
         if offset is None:
             offset = 0
-        if offset > len(ba):
-            raise bitstring.CreationError(f"Offset of {offset} too large for bitarray of length {len(ba)}.")
+        if offset < 0 or offset > len(ba):
+            raise bitstring.CreationError(f"Offset of {offset} is not within the bitarray of length {len(ba)}.")
         if length is None:
             self._bitstore = BitStore(ba[offset:])
         else:
+            if length < 0:
+                raise bitstring.CreationError(f"Can't create bitstring of negative length {length}.")
             if offset + length > len(ba):
                 raise bitstring.CreationError(
                     f"Offset of {offset} and length of {length} too large for bitarray of length {len(ba)}.")
@@ -623,10 +633,14 @@ class Bits:
         data = bytearray(data)
         if offset is None:
             offset = 0
+        if offset < 0 or offset > len(data) * 8:
+            raise bitstring.CreationError(f"The offset of {offset} bits is not within the {len(data) * 8} bits of data.")
         if length is None:
             # Use to the end of the data
             length = len(data) * 8 - offset
         else:
+            if length < 0:
+                raise bitstring.CreationError(f"Can't create bitstring of negative length {length}.")
             if length + offset > len(data) * 8:
                 raise bitstring.CreationError(f"Not enough data present. Need {length + offset} bits, have {len(data) * 8}.")
         self._bitstore = BitStore.frombytes(data).getslice_msb0(offset, offset + length)
